@@ -31,7 +31,6 @@ BOUNDS = dict(quick="shapes [1,1],[2,1]; S=2,O=2,P=1; every action kind on first
               thorough="adds [1,1,1],[1,2]; every target and name")
 prefer = common.prefer
 MODES = list(itertools.product((False, True), (True, False), (True, False)))   # fully_obs, flat_actions, flat_obs
-TYPE_IDX = dict(exploit=0, privesc=1, service_scan=2, os_scan=3, subnet_scan=4, process_scan=5)
 
 
 def queries(tier, seed=0):
@@ -48,25 +47,10 @@ def queries(tier, seed=0):
     return qs
 
 
-def encode(env, w, A, flat):
-    """the action as a user of that mode passes it"""
-    if flat:
-        for i, a in enumerate(env.action_space.actions):
-            if type(a) is type(A.obj) and a.target == A.target and \
-               getattr(a, 'name', None) == A.obj.name:
-                return i
-        raise RuntimeError("action under test not in the flat space")
-    t = A.target
-    osi = 0 if A.os is None else w.oss.index(A.os) + 1
-    srv = w.services.index(A.name) if A.kind == 'exploit' else 0
-    prc = w.procs.index(A.name) if A.kind == 'privesc' else 0
-    return [TYPE_IDX[A.kind], t[0] - 1, t[1], osi, srv, prc]
-
-
 def run(src, q):
     shape = Shape.from_json(q['shape'])
     limit = src.int('limit', 1, None) if q.get('limit') == 'sym' else None
-    w = scen.build_world(src, shape, step_limit=limit)
+    w = scen.build_world(src, shape, step_limit=limit, scan_costs=dyn.symbolic_scan_costs(src))
     A = scen.make_action(w, q['kind'], tuple(q['target']), q.get('name'), q.get('os'),
                          req_symbolic=False)
     r = dyn.Rec()
@@ -82,36 +66,67 @@ def run(src, q):
     steps = src.int('steps', 0, None)
     r.runs = []
     r.pre = None
+    r.second = None
+    from .. import hidden
+    envs = []
+    changed = []
+    skip = {('env', 'np_random'), ('env', '_np_random'), ('env', '_np_random_seed'),
+            ('env', 'current_state'), ('env', 'last_obs'), ('env', 'steps')}
     with scripted:
         for k, (fo, fa, fob) in enumerate(MODES):
             with stubs.sut():
                 env = m_env.NASimEnv(w.scenario, fully_obs=fo, flat_actions=fa, flat_obs=fob)
-            pre = scen.symbolic_state(w, env.current_state)      # same variable names: shared inputs
-            if r.pre is None:
-                r.pre = pre
-                r.st = scen.zstatus(pre)
-                if src.symbolic:
-                    sx.assume(scen.inv(w, r.st))
-                    sx.check_feasible()
-            env.steps = steps
-            stubs.rewind_draws(scripted)
-            a_in = encode(env, w, A, fa)
-            with stubs.sut():
-                o, reward, done, lim, info = env.step(a_in)
-            cells = o.cells() if isinstance(o, npmodel.SArray) else list(o.flatten())
-            r.runs.append(dict(
-                mode=(fo, fa, fob), ns_rows=dyn.tensor_rows(env.current_state.tensor),
-                obs_cells=[sx.znum(c) for c in cells], obs_shape=tuple(o.shape),
-                reward=spec.real(sx.znum(reward)), done=sx.zbool(done), lim=sx.zbool(lim),
-                info=info_terms(info), steps=sx.znum(env.steps)))
-            if k == 0:
-                r.res = dict(success=sx.zbool(info['success']), value=spec.real(sx.znum(info['value'])),
-                             conn=sx.zbool(info['connection_error']),
-                             perm=sx.zbool(info['permission_error']),
-                             undef=sx.zbool(info['undefined_error']))
-                r.post = scen.read_status(w, env.current_state)
-                r.ndraws = len(sx.cur().draws) if src.symbolic else scripted.calls
+            envs.append(env)
+            _ = (w.scenario.exploit_map, w.scenario.privesc_map)      # documented lazy memo: warm it
+            before = hidden.snapshot(dict(env=env, net=env.network), skip)
+            _one(src, r, w, A, env, (fo, fa, fob), steps, scripted, "", k == 0)
+            changed += hidden.diff(before, hidden.snapshot(dict(env=env, net=env.network), skip))
+        if changed:
+            # something outside the state was modified by a step (induction premise broken):
+            # a second step of the same environments from a fresh arbitrary Inv-state
+            r2 = dyn.Rec()
+            r2.q, r2.w, r2.A, r2.runs, r2.pre, r2.second = q, w, A, [], None, None
+            for k, env in enumerate(envs):
+                env.current_state = env.current_state.copy()
+                _one(src, r2, w, A, env, MODES[k], steps, scripted, "y", k == 0)
+            r.second = r2
     return r
+
+
+def _one(src, r, w, A, env, mode, steps, scripted, tag, first):
+    fo, fa, fob = mode
+    pre = scen.symbolic_state(w, env.current_state, tag=tag)      # same variable names: shared inputs
+    if r.pre is None:
+        r.pre = pre
+        r.st = scen.zstatus(pre)
+        if src.symbolic:
+            sx.assume(scen.inv(w, r.st))
+            sx.check_feasible()
+    env.steps = steps
+    if tag:
+        if src.symbolic:
+            sx.cur().notes['draw_ptr'] = 1 if len(sx.cur().draws) >= 1 else 0
+            r.draw_base = 1
+        else:
+            scripted.calls = 1
+    else:
+        stubs.rewind_draws(scripted)
+    a_in = dyn.encode(env, w, A, fa)
+    with stubs.sut():
+        o, reward, done, lim, info = env.step(a_in)
+    cells = o.cells() if isinstance(o, npmodel.SArray) else list(o.flatten())
+    r.runs.append(dict(
+        mode=(fo, fa, fob), ns_rows=dyn.tensor_rows(env.current_state.tensor),
+        obs_cells=[sx.znum(c) for c in cells], obs_shape=tuple(o.shape),
+        reward=spec.real(sx.znum(reward)), done=sx.zbool(done), lim=sx.zbool(lim),
+        info=info_terms(info), steps=sx.znum(env.steps)))
+    if first:
+        r.res = dict(success=sx.zbool(info['success']), value=spec.real(sx.znum(info['value'])),
+                     conn=sx.zbool(info['connection_error']),
+                     perm=sx.zbool(info['permission_error']),
+                     undef=sx.zbool(info['undefined_error']))
+        r.post = scen.read_status(w, env.current_state)
+        r.ndraws = len(sx.cur().draws) if src.symbolic else scripted.calls
 
 
 def obligations(r):
